@@ -22,7 +22,8 @@ CONSTANTS Fam,         \* "fold" | "arg" | "cum" | "topk" | "quant" | "all"
           Orders,      \* orders of `moment`
           QForms,      \* quantile argument forms [q, sq, kd]: q a sequence of rationals, sq = passed as a scalar
           EmptyAxes,   \* BOOLEAN: also axis=() for folds
-          NanBase      \* NaN-free float fills on which ALL NaN placements are enumerated (nan-arg reductions)
+          NanBase,     \* NaN-free float fills on which ALL NaN placements are enumerated (nan-arg reductions)
+          LongFills    \* fills with a long axis for the arg-reductions and scans: many, irregular blocks
 
 VARIABLES case, done, exp, out
 
@@ -98,15 +99,25 @@ QuantCases(FS) ==
               ax \in QuantAxes(Len(f.shape)) }
           : f \in { f \in FS : Size(f.shape) > 0 } }
 
+\* Arg-reductions (block offsets) and scans (sequential carry, Blelloch pairing) depend on how MANY blocks an
+\* axis has and on their irregularity: long fills get every chunking, the 1-d ones with 7 or more cells every
+\* chunking into at least n - 2 blocks (up to n blocks, all patterns of the few larger chunks).
+LongChunkings(sh) == IF Len(sh) = 1 /\ sh[1] >= 7
+                     THEN { <<c>> : c \in { c \in Chunkings(sh[1]) : Len(c) >= sh[1] - 2 } }
+                     ELSE NDChunkings(sh)
+LongCases(FS) == { [c EXCEPT !.chunkings = LongChunkings(c.shape)] @@ [grp |-> "long" \o c.fam]
+                   : c \in ArgCases(FS) \cup CumCases(FS) }
+
 \* (the case sets take the fills as a parameter so that TLC, which evaluates constant
 \* definitions eagerly, builds only the family that is asked for)
 Cases == CASE Fam = "fold"  -> FoldCases(Fills)
            [] Fam = "arg"   -> ArgCases(Fills) \cup NanPlaceCases(NanBase)
+           [] Fam = "long"  -> LongCases(LongFills)
            [] Fam = "cum"   -> CumCases(Fills)
            [] Fam = "topk"  -> TopKCases(Fills)
            [] Fam = "quant" -> QuantCases(Fills)
            [] Fam = "all"   -> FoldCases(Fills) \cup ArgCases(Fills) \cup NanPlaceCases(NanBase) \cup CumCases(Fills)
-                               \cup TopKCases(Fills) \cup QuantCases(Fills)
+                               \cup TopKCases(Fills) \cup QuantCases(Fills) \cup LongCases(LongFills)
 
 (* TLC generates initial states in one thread but successors in parallel, so a case is picked
    in Init and evaluated in the one step it can take; the invariants speak about evaluated
